@@ -27,7 +27,7 @@ def run(prop, tier, seed, scratch, t0):
     if tier == "quick":
         gcfg, traces, tw, tops, rounds = (2, 1, 2), 300, 3, 6, 60
     else:
-        gcfg, traces, tw, tops, rounds = (2, 2, 2), 900, 4, 6, 800
+        gcfg, traces, tw, tops, rounds = (2, 2, 2), 1500, 3, 7, 800
     tl, dr = [], []
     # (a) sequential histories
     r = vlib.tlc(scratch, "Relay", CFG % (names("a", gcfg[0]), names("b", gcfg[1]), names("c", gcfg[2])), name="Relay_graph",
